@@ -75,6 +75,8 @@ def check_closing(run, f, rule="IDX/row-has-fill"):
 
 def check(run):
     P = run.program
+    from ..rules import dtype as _dtw
+    run.floor('F-DTYPE/index-width', _dtw.check_no_narrow_index_dtype(run, P, ('uxarray/grid/connectivity.py', 'uxarray/grid/grid.py')), 5)
     run.explanation = (
         "Symbolic shape/slice algebra over the edge builders of grid/connectivity.py (sizes as polynomials in n_face, n_max_face_nodes): "
         "the extra closing column, the stride of the flat index used to write the closing node, the offset-by-one pairing of consecutive corners, canonical pair order before "
